@@ -56,7 +56,7 @@ type Contract struct {
 	Pure     bool
 	NoPanic  bool
 	Trusted  string
-	Lemma    bool // a contract-only obligation (no code): `lemma name` blocks
+	Lemma    bool     // a contract-only obligation (no code): `lemma name` blocks
 	Params   []string // for lemma blocks: "x Real" declarations
 	File     string
 	Line     int
